@@ -129,6 +129,8 @@ ExposeDef(s, t, kind) ==
     [] kind = "fan"       -> << E(9000, 9001, "", <<G, S(t)>>, <<>>) >>
     [] kind = "bare"      -> << E(7000, 0, "", <<>>, <<>>), E(8443, 0, "tcp", <<G>>, <<>>) >>
     [] kind = "barehosts" -> << E(7000, 7001, "udp", <<>>, HostsOf(s)), E(80, 0, "", <<G>>, <<>>) >>
+    [] kind = "badproto"  -> << E(80, 0, "sctp", <<G>>, <<>>) >>                      \* unsupported protocol: invalid
+    [] kind = "port0"     -> << E(0, 80, "", <<G>>, <<>>) >>                          \* port zero: invalid
     [] kind = "bareonly"  -> << E(7000, 0, "", <<>>, <<>>) >>                      \* no global service: invalid alone
     [] kind = "udp80"     -> << E(80, 0, "udp", <<G>>, <<>>) >>
     [] kind = "as8080"    -> << E(80, 8080, "tcp", <<G>>, <<>>) >>
